@@ -77,6 +77,11 @@ CHECKS = {
          "Held on every observed execution: ~130 loop programs x 6 graphs x GOMAXPROCS in {1,2,4,16} x 15 delay profiles (quick: a rotating third, about 1500 runs; thorough: all, with repetitions), including runs with thousands of travelers in flight. The evidence reports the number of distinct interleaving signatures actually observed (about 700 in a quick run); 'all interleavings' is sampled, not enumerated.",
          "Trusted: the worklist interpreter (harness/model/loop.go), the recorder (harness/mon). Hooks H1/H2 (verifhook taps) are add-only no-ops without the tag. Bodies are restricted to order-preserving steps as the property states.",
          "5/C12"),
+ "C13": ("exploration",
+         "sequence monitor + race detector under schedule perturbation: every combinator is driven directly with uniquely numbered items in a -race build; latency is injected through verif-tagged delay points inside the worker loops and through slow items; the output sequence is compared with the input sequence and closure is required",
+         "Held on every observed execution: 7 combinators x 24 input lengths around every worker/batch/buffer size x worker counts / batch sizes / pipeline counts x latency patterns x GOMAXPROCS in {1,2,16} (quick: about 3900 runs, a rotating third of the larger lengths; thorough: all, two GOMAXPROCS values each). No race report.",
+         "Items carry unique ids, so loss, duplication and reordering are directly visible; hooks H3 are add-only no-ops without the tag.",
+         "5/C13"),
 }
 
 NOT_YET = "check not built yet in this session (design in DESIGN.md section 5); claimed once the monitor exists and is silent on the unchanged tree"
